@@ -218,6 +218,17 @@ class Gen:
 
     def function(self, name):
         body, _ = self.block({"a", "b"}, 0, False)
+        if self.r.random() < 0.3:
+            body.insert(0, self.r.choice(["a = abs(a)", "b = b + (a * 0)", "a = np.ident(a)"]))     # a parameter rebound at the top
+        if self.r.random() < 0.3:
+            v = self.fresh()
+            body.insert(0, f"{v} = (lambda u_, w_=2: u_ * w_ + a)(b)")
+            body.insert(1, f"eff({v})")
+        if self.r.random() < 0.3:
+            v = self.fresh()
+            body.insert(0, f"{v} = a if a < b else lst[0]")
+            body.insert(1, f"{v} = sum(list(g_ + {v} for g_ in lst[:2])) if b > 0 else {v}")
+            body.insert(2, f"eff({v})")
         if self.r.random() < 0.7:
             body.append("return " + self.expr({"a", "b"}))
         return f"def {name}(self, a: int, b, lst, keep):\n" + "\n".join("    " + ln for ln in body) + "\n"
